@@ -24,7 +24,7 @@ func init() {
 			"and runs one of {parse text, parse JSON, validate, write LF+CRLF, json.Marshal, FlattenBatches, SegmentFile, MergeFiles of 2..5 own files, build+Create}; the result is the error text plus the NACHA text and JSON of what came out " +
 			"(keys \"id\" removed; file creation date/time masked for Flatten/Segment output, which stamps the current time). The jobs are run twice sequentially (a job whose two sequential results differ is counted as nondeterministic and not compared), " +
 			"then twice by 2..32 goroutines pulling from a shared queue, inputs rebuilt inside the goroutines; every concurrent result must equal the sequential one byte for byte. " +
-			"(B) per case 2..32 clients, each owning one file ID and a script of 3..10 requests to it (create text|JSON valid|invalid, get, contents LF|CRLF, validate GET|POST, build, add/list/get/delete batch, flatten, segment by ID, delete; never the list-all nor the balance endpoint), " +
+			"(B) per case 2..32 clients, each owning one file ID and a script of 3..10 requests to it (create text|JSON valid|invalid, get, contents LF|CRLF, validate GET|POST, build, add/list/get/delete batch, flatten (only while no batch was added/deleted and no mutated body was sent: Flatten breaks ties between equal batch numbers by map order), segment by ID, delete; never the list-all nor the balance endpoint), " +
 			"run sequentially on one fresh in-process handler and concurrently (one goroutine per client) on another; status and canonical body (\"id\"-like keys removed, Flatten/Segment creation stamps masked) of every request must agree. " +
 			"distinct = (job kinds and seeds) / (scripts); non-trivial = at least two jobs or clients really ran in parallel. The oracle shares nothing between goroutines but the work queue and per-index result slots.",
 		Run: func(t *T) {
